@@ -177,7 +177,9 @@ trait SourceQueryDb: salsa::Database + zydeco_statics::query::TyckDb {
 #[derive(Clone)]
 pub struct CompilerSession {
     storage: Storage<Self>,
-    files: DashMap<PathBuf, SourceInput>,
+    /// Shared with every snapshot: an input first seen by a snapshot must be the
+    /// input that the owner later edits, or the memos that read it never go stale.
+    files: Arc<DashMap<PathBuf, SourceInput>>,
     pending: std::sync::Arc<
         std::sync::Mutex<Option<std::sync::Arc<zydeco_statics::query::PendingParts>>>,
     >,
@@ -187,7 +189,7 @@ impl Default for CompilerSession {
     fn default() -> Self {
         Self {
             storage: Storage::default(),
-            files: DashMap::new(),
+            files: Arc::new(DashMap::new()),
             pending: std::sync::Arc::new(std::sync::Mutex::new(None)),
         }
     }
